@@ -2,6 +2,7 @@ import G3D.Proofs.PolyPoly
 import G3D.Props.C04
 import G3D.Proofs.BodySoundSets
 import G3D.Proofs.K2
+import G3D.Proofs.K4a
 /-! # C03 — ConvexPolygon / ConvexPolyhedron × ConvexPolygon / ConvexPolyhedron  (partial)
     Proved: polygon × polygon EXACT in every relative position (kernels K0, K1, K2, K6); soundness of every pair.
     Completeness of polygon × polyhedron (K3) and polyhedron × polyhedron (K3, K4) is not proved; decided on every
@@ -49,4 +50,21 @@ theorem inter_polygon_polygon_total (a b : Polygon) (ha : a.Valid) (hb : b.Valid
     ∀ e, inter (.polygon a) (.polygon b) ≠ .error e := by
   obtain ⟨o, ho, _⟩ := inter_polygon_polygon_exact a b ha hb
   intro e h; rw [ho] at h; cases h
+
+/-! ### ConvexPolygon × ConvexPolyhedron is EXACT (K3 plane section ∘ K0/K1/K2) -/
+/-- for every Valid polygon and every polyhedron meeting `ExactHyp`, in either argument order, `intersection` returns without
+    error None, a Point, a proper Segment or a polygon denoting exactly hull(P) ∩ hull(vertices of B) -/
+theorem inter_polygon_polyhedron_exact (P : Polygon) (hv : P.Valid) (B : Polyhedron) (hH : B.ExactHyp) :
+    ExactW (inter (.polygon P) (.polyhedron B)) (InHull P.pts) (InHull B.verts) ∧
+    ExactW (inter (.polyhedron B) (.polygon P)) (InHull P.pts) (InHull B.verts) := by
+  rw [Props.C04.inter_eq_ref, Props.C04.inter_eq_ref]
+  exact ⟨interPolygonPolyhedron_exact B hH P hv, interPolygonPolyhedron_exact B hH P hv⟩
+
+/-- no "Bug detected" for polygon × polyhedron -/
+theorem inter_polygon_polyhedron_total (P : Polygon) (hv : P.Valid) (B : Polyhedron) (hH : B.ExactHyp) :
+    (∀ e, inter (.polygon P) (.polyhedron B) ≠ .error e) ∧ (∀ e, inter (.polyhedron B) (.polygon P) ≠ .error e) := by
+  obtain ⟨⟨o, ho, _⟩, ⟨o', ho', _⟩⟩ := inter_polygon_polyhedron_exact P hv B hH
+  refine ⟨fun e h => ?_, fun e h => ?_⟩
+  · rw [ho] at h; cases h
+  · rw [ho'] at h; cases h
 end G3D.Props.C03
